@@ -182,3 +182,35 @@ Example C04_documented_shape_example :
   documented_shape [AReq "a"; AReq "b"; AOpt "c"; ARest "r"] = true /\
   documented_shape [AOpt "a"; AReq "b"] = false.
 Proof. split; reflexivity. Qed.
+
+(* ---- ... and the same two theorems for the evaluator with EVERY built-in of the table and `^`
+   (EvalAll.v), for every oracle o: the function may also call the libm functions, trim / uppercase /
+   lowercase, format, print, time_now, and stringify values that contain functions ---- *)
+Require Import Blots.EvalAll Blots.proofs.AllAgree.
+Theorem C04_call_site_independent_all : forall o release d fr1 fr2 this f args st,
+  lookup fr1 "inputs" = lookup fr2 "inputs" ->
+  (forall v, lookup fr1 "inputs" = Some v -> closed_value st v) ->
+  closed_value st this -> closed_value st f -> closed_list st args ->
+  AD release (binop_all o) (builtin_all o) d fr1 this f args st =
+  AD release (binop_all o) (builtin_all o) d fr2 this f args st.
+Proof. exact call_site_independent_all. Qed.
+Check C04_call_site_independent_all : forall o release d fr1 fr2 this f args st,
+  lookup fr1 "inputs" = lookup fr2 "inputs" ->
+  (forall v, lookup fr1 "inputs" = Some v -> closed_value st v) ->
+  closed_value st this -> closed_value st f -> closed_list st args ->
+  AD release (binop_all o) (builtin_all o) d fr1 this f args st =
+  AD release (binop_all o) (builtin_all o) d fr2 this f args st.
+Print Assumptions C04_call_site_independent_all.
+
+Theorem C04_call_result_closed_all : forall o release d fr this f args st r st',
+  (forall v, lookup fr "inputs" = Some v -> closed_value st v) ->
+  closed_value st this -> closed_value st f -> closed_list st args ->
+  AD release (binop_all o) (builtin_all o) d fr this f args st = (r, st') ->
+  store_le st st' /\ (forall v, r = Ok v -> closed_value st' v).
+Proof. exact call_result_closed_all. Qed.
+Check C04_call_result_closed_all : forall o release d fr this f args st r st',
+  (forall v, lookup fr "inputs" = Some v -> closed_value st v) ->
+  closed_value st this -> closed_value st f -> closed_list st args ->
+  AD release (binop_all o) (builtin_all o) d fr this f args st = (r, st') ->
+  store_le st st' /\ (forall v, r = Ok v -> closed_value st' v).
+Print Assumptions C04_call_result_closed_all.
